@@ -2,10 +2,12 @@
    model/M_C14_Dof.v (tied to the source by exact correspondence on every run).  `isBc` is the flat row-major
    (nNodes x dim) boolean mask; every theorem below holds for EVERY such mask (hence for every BC set, including
    empty, full, overlapping and repeated node sets), every mesh and every number of fields. *)
-From Coq Require Import ZArith List Bool Arith Permutation Sorted.
-From OV.model Require Import M_C14_Dof M_C14_Asm.
-From OV.proofs Require Import L_C14 L_C14_Asm.
+From Coq Require Import String ZArith List Bool Arith Permutation Sorted.
+From OV.model Require Import M_C14_Dof M_C14_Asm M_C14_IR.
+From OV.proofs Require Import L_C14 L_C14_Asm L_C14_IR.
+From OV.gen Require Import CFG_Dof.
 Import ListNotations.
+Open Scope list_scope.
 
 (* the mask built by the constructor loop marks (n, c) iff some essential BC names component c and a node set containing n
    (node sets with repeated nodes, overlapping sets, empty sets and an empty BC list included) *)
@@ -135,6 +137,53 @@ Example C14_history_nonvacuous :
   /\ HessRowCoords (request_mask ex_req_A) 1 (r_conns ex_req_A) <> HessRowCoords (request_mask ex_req_B) 1 (r_conns ex_req_B).
 Proof. exact ex_history. Qed.
 
+(* ---- the SOURCE is the model: the syntax trees of the DofManager methods and of assemble_sparse_stiffness_matrix are extracted
+   from /repo's AST on every run (gen/CFG_Dof.v, tools/vlib/extract_dof.py: purely syntactic, fail-closed) and run by the
+   NumPy-subset interpreter of model/M_C14_IR.v.  On the model's DofManager object (dof_object: the ten attributes hold the
+   hand model's arrays) every public method returns exactly the hand-model function, for every mask, mesh size, number of
+   fields and every argument (any value type A). *)
+Theorem C14_source_methods : forall (A : Type) (zero : A) nNodes dim isBc conns F,
+  length isBc = nNodes * dim ->
+  let obj : @val A := dof_object nNodes dim isBc conns in
+  let callm := call zero cfg_dof_methods (S F) in
+  callm "get_bc_size"%string obj [] = Some (VInt (get_bc_size isBc))
+  /\ callm "get_unknown_size"%string obj [] = Some (VInt (get_unknown_size isBc))
+  /\ (forall sh U, callm "get_bc_values"%string obj [VA sh U] = Some (VA [count_true isBc] (get_bc_values isBc U)))
+  /\ (forall sh U, callm "get_unknown_values"%string obj [VA sh U] = Some (VA [count_true (isUnknown isBc)] (get_unknown_values isBc U)))
+  /\ (forall s1 s2 Uu Ubc, callm "create_field"%string obj [VA s1 Uu; VA s2 Ubc] = Some (VA [nNodes; dim] (create_field isBc zero Uu Ubc)))
+  /\ (forall s1 Uu c, callm "create_field"%string obj [VA s1 Uu; VSc c] = Some (VA [nNodes; dim] (create_field_scalar isBc zero Uu c)))
+  /\ (forall s1 Uu, callm "create_field"%string obj [VA s1 Uu] = Some (VA [nNodes; dim] (create_field_scalar isBc zero Uu zero)))
+  /\ (forall s1 Uu pos, callm "slice_unknowns_with_dof_indices"%string obj [VA s1 Uu; VPos pos]
+                        = Some (VA [count_true (map (is_unknown isBc) pos)] (slice_unknowns isBc zero Uu pos))).
+Proof. exact ir_methods_full. Qed.
+
+(* the extracted body of assemble_sparse_stiffness_matrix, run on the model's DofManager object with kValues of shape
+   (nEl, npe, dim, npe, dim), returns -- seen as a dense matrix, duplicates summed -- the matrix assembled BY HAND from the element
+   matrices, the connectivity and the mask (C14_assembly_by_hand), for every valid input: the index path of the real assembler as
+   a theorem over code generated from the source.  The module binds nothing at module level (no cache, no state). *)
+Theorem C14_source_assembler : forall nNodes dim isBc conns (kvals : list (list Z)) n0 n1 n3 n4,
+  length isBc = nNodes * dim -> valid_conns nNodes conns -> asm_blocks_ok dim conns kvals ->
+  match run_function 0%Z cfg_asm_assemble_sparse_stiffness_matrix
+                     [VA [n0; n1; dim; n3; n4] (concat kvals); VConns conns; dof_object nNodes dim isBc conns] with
+  | Some K => csc_dense K
+  | None => None
+  end = Some (assemble isBc dim conns kvals).
+Proof. exact ir_assemble_by_hand. Qed.
+
+Theorem C14_source_assembler_stateless : cfg_asm_module_state = [] /\ cfg_asm_other_functions = [].
+Proof. exact asm_module_stateless. Qed.
+
+(* the extracted constructor (with both Hessian helper methods, run from their own extracted syntax trees) builds the model's
+   object on the worked example; for ALL inputs this is
+   NOT PROVED: construct 0 cfg_dof_methods F [functionSpace; dim; EssentialBCs] = dof_object nNodes dim (mk_isBc ...) conns
+   needs loop invariants for the three `for` loops of __init__ / _make_hessian_coordinates / _make_hessian_bc_mask through the
+   interpreter; it is instead CHECKED BY COMPUTATION in Coq on every case of the correspondence stream (run_ir_case: the
+   interpreted extracted constructor against the running DofManager, exact), see tools/props/c14.py. *)
+Example C14_source_constructor_example :
+  option_map (canon_object cfg_dof_fields) (construct 0%Z cfg_dof_methods 2 [ex_fsp; VInt 2; ex_ebcs])
+  = Some (canon_object cfg_dof_fields (dof_object 4 2 ex_isBc ex_conns)).
+Proof. exact ex_construct. Qed.
+
 (* non-vacuity: a concrete BC list with a repeated node, two overlapping node sets and an empty node set; an empty BC
    list; a full BC set given twice over; a valid two-element connectivity *)
 Example C14_nonvacuous :
@@ -153,3 +202,4 @@ Print Assumptions C14_dofToUnknown.
 Print Assumptions C14_slice_component.
 Print Assumptions C14_hessian_maps.
 Print Assumptions C14_assembly_by_hand.
+Print Assumptions C14_source_assembler.
